@@ -5,6 +5,7 @@ import (
 	"encoding/json"
 	"fmt"
 	"reflect"
+	"regexp"
 	"strings"
 
 	"github.com/formancehq/stack/libs/go-libs/bun/bunpaginate"
@@ -73,9 +74,27 @@ func count(s *Store, ctx context.Context, builders ...func(query *bun.SelectQuer
 		Count(ctx)
 }
 
-func filterAccountAddress(address, key string) string {
-	parts := make([]string, 0)
+var accountSegmentRegexp = regexp.MustCompile("^" + ledger.AccountSegmentRegex + "$")
+
+// checkAccountAddressFilter validates an address pattern of a list filter: segments separated by ':',
+// each one either empty (matches any value at that position) or a valid account segment.
+// The segments are interpolated into the SQL text below, so anything else must be refused here.
+func checkAccountAddressFilter(address string) ([]string, error) {
 	src := strings.Split(address, ":")
+	for _, segment := range src {
+		if segment != "" && !accountSegmentRegexp.MatchString(segment) {
+			return nil, newErrInvalidQuery("invalid account address filter '%s': segment '%s' is not a valid account segment", address, segment)
+		}
+	}
+	return src, nil
+}
+
+func filterAccountAddress(address, key string) (string, error) {
+	parts := make([]string, 0)
+	src, err := checkAccountAddressFilter(address)
+	if err != nil {
+		return "", err
+	}
 
 	needSegmentCheck := false
 	for _, segment := range src {
@@ -98,11 +117,14 @@ func filterAccountAddress(address, key string) string {
 		parts = append(parts, fmt.Sprintf("%s = '%s'", key, address))
 	}
 
-	return strings.Join(parts, " and ")
+	return strings.Join(parts, " and "), nil
 }
 
-func filterAccountAddressOnTransactions(address string, source, destination bool) string {
-	src := strings.Split(address, ":")
+func filterAccountAddressOnTransactions(address string, source, destination bool) (string, error) {
+	src, err := checkAccountAddressFilter(address)
+	if err != nil {
+		return "", err
+	}
 
 	needSegmentCheck := false
 	for _, segment := range src {
@@ -136,7 +158,7 @@ func filterAccountAddressOnTransactions(address string, source, destination bool
 		if destination {
 			parts = append(parts, fmt.Sprintf("destinations_arrays @> '%s'", string(data)))
 		}
-		return strings.Join(parts, " or ")
+		return strings.Join(parts, " or "), nil
 	} else {
 		data, err := json.Marshal([]string{address})
 		if err != nil {
@@ -150,7 +172,7 @@ func filterAccountAddressOnTransactions(address string, source, destination bool
 		if destination {
 			parts = append(parts, fmt.Sprintf("destinations @> '%s'", string(data)))
 		}
-		return strings.Join(parts, " or ")
+		return strings.Join(parts, " or "), nil
 	}
 }
 
